@@ -328,3 +328,63 @@ func isValueMaterialiser(p *core.Program, ci ssa.CallInstruction) bool {
 	nt := namedOfType(rt)
 	return nt != nil && assemblerRole(p, nt)
 }
+
+// ---- bindnode: the functions that relate Go types and schema types ----
+
+func isReflectType(t types.Type) bool {
+	nt := namedOfType(t)
+	return nt != nil && nt.Obj().Pkg() != nil && nt.Obj().Pkg().Path() == "reflect" && nt.Obj().Name() == "Type"
+}
+
+func isSchemaType(t types.Type) bool {
+	nt := namedOfType(t)
+	return nt != nil && nt.Obj().Pkg() != nil && core.RelPkg(nt.Obj().Pkg().Path()) == "schema" && nt.Obj().Name() == "Type"
+}
+
+// sigMentions reports whether the function's parameters / results include a type satisfying pred.
+func sigMentions(sig *types.Signature, params, results bool, pred func(types.Type) bool) bool {
+	if params {
+		for i := 0; i < sig.Params().Len(); i++ {
+			if pred(sig.Params().At(i).Type()) {
+				return true
+			}
+		}
+	}
+	if results {
+		for i := 0; i < sig.Results().Len(); i++ {
+			if pred(sig.Results().At(i).Type()) {
+				return true
+			}
+		}
+	}
+	return false
+}
+
+// isTypeBridge: a bindnode function that checks or derives the correspondence between a Go type and a schema type:
+// it takes both (the compatibility check), or takes one and returns the other (the two inference directions).
+func isTypeBridge(fn *ssa.Function) bool {
+	if fn == nil || len(fn.Blocks) == 0 || core.FuncPkg(fn) == nil || core.RelPkg(core.FuncPkg(fn).Path()) != "node/bindnode" {
+		return false
+	}
+	sig := fn.Signature
+	goIn, goOut := sigMentions(sig, true, false, isReflectType), sigMentions(sig, false, true, isReflectType)
+	scIn, scOut := sigMentions(sig, true, false, isSchemaType), sigMentions(sig, false, true, isSchemaType)
+	return (goIn && scIn) || (goIn && scOut) || (scIn && goOut)
+}
+
+// goTypeInferrer: the bindnode function that derives a Go type from a schema type (schema.Type in, reflect.Type out).
+func goTypeInferrer(p *core.Program) *ssa.Function {
+	var out *ssa.Function
+	for _, fn := range p.ModFns {
+		if fn.Parent() != nil || fn.Synthetic != "" || !isTypeBridge(fn) {
+			continue
+		}
+		sig := fn.Signature
+		if sigMentions(sig, true, false, isSchemaType) && sig.Results().Len() == 1 && isReflectType(sig.Results().At(0).Type()) && !sigMentions(sig, true, false, isReflectType) {
+			if out == nil || core.FuncKey(fn) < core.FuncKey(out) {
+				out = fn
+			}
+		}
+	}
+	return out
+}
